@@ -1,5 +1,114 @@
+/-
+  Driver/L2: JSON glue for the bind layer.
+-/
 import Lean.Data.Json
-open Lean
+import SqlairModel.Spec.L2
+import Driver.Json
+
+open Lean Sqlair
+
 namespace Driver
-def handleL2 (_ : Json) : Except String Json := throw "l2 not built"
+
+def kindOf : String → Kind
+  | "struct" => .struct | "map" => .map | "slice" => .slice | "ptr" => .ptr
+  | "string" => .string | "interface" => .iface | _ => .other
+
+def parseField (j : Json) : Except String FieldDesc := do
+  pure { name := ← optHex j "name", tag := ← optHex j "tag", exported := (getBool j "exp").toOption.getD false,
+         anon := (getBool j "anon").toOption.getD false, ty := ← getNat j "t" }
+
+def parseTypeDesc (j : Json) : Except String TypeDesc := do
+  let ks ← getStr j "kind"
+  let fields ← (optList j "fields").toList.mapM parseField
+  pure { kind := kindOf ks, kindStr := ks, name := ← optHex j "name",
+         elem := (optNat j "elem").getD 0, key := (optNat j "key").getD 0, fields := fields,
+         ptrScanner := (getBool j "pscan").toOption.getD false }
+
+def parseVH (j : Json) : VH :=
+  { t := (optNat j "t").getD 0, zero := (getBool j "z").toOption.getD false,
+    r := (getStr j "r").toOption.getD "" }
+
+partial def parseGoVal (j : Json) : Except String GoVal := do
+  match j with
+  | .null => pure .invalid
+  | _ =>
+    let h := parseVH j
+    match (getStr j "k").toOption.getD "leaf" with
+    | "invalid" => pure .invalid
+    | "struct" =>
+      let fs ← (optList j "f").toList.mapM parseGoVal
+      pure (.struct h fs)
+    | "ptr" =>
+      match j.getObjVal? "p" with
+      | .ok pj => pure (.ptr h (some (← parseGoVal pj)))
+      | .error _ => pure (.ptr h none)
+    | "iface" =>
+      match j.getObjVal? "p" with
+      | .ok pj => pure (.iface h (some (← parseGoVal pj)))
+      | .error _ => pure (.iface h none)
+    | "map" =>
+      if (getBool j "nil").toOption.getD false then pure (.map h none) else
+      let kv ← (optList j "kv").toList.mapM fun e => do
+        match e with
+        | .arr #[k, v] =>
+          let ks ← k.getStr?
+          match Bytes.ofHex ks with
+          | some kb => pure (kb, ← parseGoVal v)
+          | none => throw "bad map key hex"
+        | _ => throw "bad kv"
+      pure (.map h (some kv))
+    | "slice" =>
+      let els ← (optList j "el").toList.mapM parseGoVal
+      pure (.slice h els)
+    | _ => pure (.leaf h)
+
+def mkCls (cls : Array (Nat × Nat)) : Cls :=
+  { letter := fun c => if c < 128 then asciiLetter c else cls.any (fun (r, k) => r == c && k == 1)
+    digit := fun c => if c < 128 then asciiDigit c else cls.any (fun (r, k) => r == c && k == 2) }
+
+def parseBindObs (j : Json) : Except String BindObs := do
+  let params ← (optList j "params").toList.mapM fun e => do
+    match e with
+    | .arr #[n, v] => pure ((← n.getStr?), (← v.getStr?))
+    | _ => throw "bad param"
+  pure { prepOk := ← getBool j "prepOk", prepErr := ← optHex j "prepErr",
+         bindOk := (getBool j "bindOk").toOption.getD false, bindErr := ← optHex j "bindErr",
+         sql := ← optHex j "sql", params := params,
+         mode := (getStr j "mode").toOption.getD "none", events := (optNat j "events").getD 0 }
+
+def exceptStr {α} : Except String α → String
+  | .ok _ => "ok"
+  | .error e => "err:" ++ e
+
+def handleL2 (j : Json) : Except String Json := do
+  let q ← optHex j "q"
+  let segs ← (← getArr j "segs").toList.mapM parseOSeg
+  let tt ← (← getArr j "tt").mapM parseTypeDesc
+  let samples := (optList j "samples").toList.map fun s => s.getNat?.toOption
+  let args ← (optList j "args").toList.mapM parseGoVal
+  let C := mkCls (← parseCls j)
+  let m := runModel C tt segs samples args
+  let modelJson : List (String × Json) :=
+    [("prep", Json.str (exceptStr m.prep)), ("bind", Json.str (exceptStr m.bind))] ++
+    (match m.bind with
+     | .ok pq => [("sql", Json.str (renderSQL pq.pieces).toHex),
+                  ("params", Json.arr (pq.params.map fun (p : Nat × String) => Json.arr #[Json.str s!"sqlair_{p.1}", Json.str p.2]).toArray),
+                  ("nouts", Json.num pq.outputs.length)]
+     | .error _ => [])
+  match j.getObjVal? "obs" with
+  | .error _ => pure (Json.mkObj [("model", Json.mkObj modelJson)])
+  | .ok oj =>
+    let o ← parseBindObs oj
+    let aff := affected m o
+    pure (Json.mkObj
+      [("model", Json.mkObj modelJson),
+       ("agree", Json.bool aff.isEmpty),
+       ("affects", Json.arr (aff.map Json.str).toArray),
+       ("c01", Json.bool (holdsC01e2e q segs o)),
+       ("c03", Json.bool (holdsC03 segs o)),
+       ("c04", Json.bool (holdsC04rej m o)),
+       ("c05", Json.bool (holdsC05 segs o)),
+       ("c07", Json.bool (holdsC07 m o)),
+       ("c08", Json.bool (holdsC08 m o))])
+
 end Driver
